@@ -101,7 +101,7 @@ def run(c):
 
     # (b), (c): class O through the run-time interface, sharded over processes
     NSH = 8
-    for mode, label in (("solve", "families"), ("spd", "spd_m-defaults")):
+    for mode, label in (("solve", "families"), ("spd", "spd_m-defaults"), ("hist", "histories-restarts-cycles")):
         outs = c.parallel([(lambda sh=sh, mode=mode: c.record(rs, [mode, sh, NSH], out=c.path("%s-%d.ndjson" % (mode, sh)),
                                                                 timeout=1500)) for sh in range(NSH)], max_workers=NSH)
         merged = c.path(mode + ".ndjson")
@@ -122,6 +122,17 @@ def run(c):
             combos = set((r["solver"], r["coars"], r["relax"]) for r in rets)
             c.note("families: %d solves, %d distinct (solver, coarsening, relaxation) triples, families %s, %d left-preconditioned"
                    % (len(rets), len(combos), sorted(set(r["fam"] for r in rets)), sum(r["side"] == "left" for r in rets)))
+        elif mode == "hist":
+            ab = [r for r in recs if r.get("k") == "abort"]
+            c.note("histories: %d aborted calls (%d thrown) followed by %d judged solves on the same object; restarts: %d solves "
+                   "(max %d iterations, budget 500), %d restart-boundary sequences; cycles without pre-smoothing: %d solves "
+                   "(max %d iterations, budget 100), %d Richardson contraction pairs"
+                   % (len(ab), sum(r.get("thrown", 0) for r in ab), sum(1 for r in rets if r["mode"] == "hist"),
+                      sum(1 for r in rets if r["mode"] == "restart"), max([r.get("it", 0) for r in rets if r["mode"] == "restart"] or [0]),
+                      sum(1 for r in recs if r.get("k") == "restart"),
+                      sum(1 for r in rets if r["mode"] == "cyc" and r.get("dflt") == 2),
+                      max([r.get("it", 0) for r in rets if r["mode"] == "cyc" and r.get("dflt") == 2] or [0]),
+                      sum(1 for r in recs if r.get("k") == "contract")))
         else:
             d = [r for r in rets if r.get("dflt") == 1 and "it" in r]
             if d:
